@@ -80,9 +80,10 @@ func NewWriterLevel(w io.Writer, level, wc int) (*Writer, error) {
 	go func() {
 		defer bg.wg.Done()
 		for qw := range bg.queue {
-			if !writeOK(bg, <-qw.flush) {
-				break
-			}
+			// Keep draining after a failure: every queued compressor
+			// must be returned to the pool and accounted for in qwg,
+			// otherwise Write, Flush, Wait and Close block for ever.
+			writeOK(bg, <-qw.flush)
 		}
 	}()
 
@@ -93,10 +94,18 @@ func writeOK(bg *Writer, c *compressor) bool {
 	defer func() { bg.waiting <- c }()
 
 	if c.err != nil {
+		bg.qwg.Done()
 		bg.setErr(c.err)
 		return false
 	}
+	if bg.Error() != nil {
+		// An earlier block was lost; do not write past the hole.
+		c.buf.Reset()
+		bg.qwg.Done()
+		return false
+	}
 	if c.buf.Len() == 0 {
+		bg.qwg.Done()
 		return true
 	}
 
